@@ -130,10 +130,12 @@ class _UtilityRegistrations:
     def registerUtility(self, provided, name, component, info, factory):
         subscribed = self._is_utility_subscribed(provided, component)
 
+        # The registry validates the name: let it refuse before anything is
+        # written to the listing.
+        self._utilities.register((), provided, name, component)
         self._utility_registrations[
             (provided, name)
         ] = component, info, factory
-        self._utilities.register((), provided, name, component)
 
         if not subscribed:
             self._utilities.subscribe((), provided, component)
@@ -315,9 +317,11 @@ class Components:
         required = _getAdapterRequired(factory, required)
         if name == '':
             name = _getName(factory)
+        # (registered first: a name the registry refuses must not reach the
+        # listing)
+        self.adapters.register(required, provided, name, factory)
         self._adapter_registrations[(required, provided, name)
                                     ] = factory, info
-        self.adapters.register(required, provided, name, factory)
 
         if event:
             notify(Registered(
